@@ -157,6 +157,11 @@ func (b *BinaryExpression) SQL() string {
 		return fmt.Sprintf("%s %s", left, upperOp)
 	}
 
+	// NOT EXISTS (...) is stored as operator "NOT" with only a left operand
+	if upperOp == "NOT" && b.Right == nil {
+		return "NOT " + left
+	}
+
 	// Handle special operators like LIKE, ILIKE, SIMILAR TO
 	if b.Not {
 		switch upperOp {
